@@ -886,8 +886,171 @@ def run(ctx):
     alias_checks(ctx, cases, quick, ndisjoint)
     betweenness_checks(ctx, dcases, quick)
     ccn_checks(ctx, quick)
+    net_correspondence(ctx, nets)
+    width_correspondence(ctx)
+    subclass_checks(ctx, quick)
     frame_checks(ctx, nets)
     hub_checks(ctx, quick)
+
+
+
+# --------------------------------------------------------------------------
+# round 3: the single-network methods the whole-network theorems refer to, fixed-width integer
+# arithmetic, subclasses
+# --------------------------------------------------------------------------
+
+NET_METHODS = ["n_links", "link_density", "nsi_degree", "nsi_local_clustering",
+               "nsi_global_clustering", "nsi_transitivity", "nsi_closeness",
+               "nsi_average_path_length"]
+
+
+def net_correspondence(ctx, nets):
+    """Lean models `netNLinks`, `netLinkDensity`, `Net.nsiDegree`, `Net.nsiLocalClustering`,
+    `netNsiGlobalClustering`, `netNsiTransitivity`, `netNsiCloseness`, `netNsiAPL` (the right-hand
+    sides of the whole_* theorems of round 3) against the Network methods of the very objects the
+    cross_/internal_ histories ran on."""
+    reqs, impls = [], []
+    for c in nets:
+        net = c.net
+        reqs.append(" ".join(["net", "1" if c.directed else "0", str(c.n), enc_mat(c.A),
+                              enc_vec(c.w), enc_mat(c.Du)]))
+        impls.append({
+            "n_links": call(lambda: net.n_links),
+            "link_density": call(lambda: net.link_density),
+            "nsi_degree": call(net.nsi_degree),
+            "nsi_local_clustering": call(net.nsi_local_clustering),
+            "nsi_global_clustering": call(net.nsi_global_clustering),
+            "nsi_transitivity": call(net.nsi_transitivity),
+            "nsi_closeness": call(net.nsi_closeness),
+            "nsi_average_path_length": call(net.nsi_average_path_length)})
+    model = common.driver(ctx.pid, reqs)
+    bad, ncmp = [], 0
+    for c, ans, res in zip(nets, model, impls):
+        got = dict(kv.split("=", 1) for kv in ans.split("|"))
+        for nm in NET_METHODS:
+            ncmp += 1
+            if not same(res[nm], parse_model(got[nm])):
+                bad.append((nm, c, got[nm], res[nm]))
+    ctx.count("net-methods-compared", ncmp)
+    ctx.obligation(f"correspondence: Lean models of Network.n_links / link_density / nsi_degree / "
+                   f"nsi_local_clustering / nsi_global_clustering / nsi_transitivity / nsi_closeness "
+                   f"/ nsi_average_path_length == the Network methods ({ncmp} results on "
+                   f"{len(nets)} networks)",
+                   "correspondence", not bad,
+                   "\n".join(f"{nm} directed={c.directed} A={enc_mat(c.A)} w={enc_vec(c.w)} :: "
+                             f"model={mv[:120]} impl={str(iv)[:120]}" for nm, c, mv, iv in bad[:6]))
+    ctx.extra["net_method_results_compared"] = ncmp
+
+
+def width_correspondence(ctx):
+    """`normProdW m k` (Lean: k*(k-1) in a two's-complement type of range [-m, m)) against numpy's
+    element-wise arithmetic on int16 / int32 / int64 arrays, boundaries included"""
+    rng = ctx.rng
+    reqs, exp = [], []
+    for dt, bits in ((np.int16, 16), (np.int32, 32), (np.int64, 64)):
+        m = 2 ** (bits - 1)
+        ks = [0, 1, 2, 3, 181, 182, 183, 200, 240, 255, 256, 257, 32766, 32767, 46340, 46341, 46342,
+              65535, 65536, 2 ** 31 - 2, 2 ** 31 - 1, 3037000499, 3037000500, 3037000501,
+              2 ** 62, 2 ** 63 - 1]
+        ks = [k for k in ks if k < m]
+        ks += [rng.randrange(0, m) for _ in range(40)]
+        ks += [rng.randrange(0, min(m, 70000)) for _ in range(40)]
+        arr = np.array(ks, dtype=dt)
+        with np.errstate(all="ignore"), warnings.catch_warnings():
+            warnings.simplefilter("ignore")
+            prod = arr * (arr - dt(1))
+        assert prod.dtype == dt
+        reqs.append(f"normprod {m} " + ",".join(str(k) for k in ks))
+        exp.append(",".join(str(int(x)) for x in prod))
+        ctx.count(f"width:int{bits}-products", len(ks))
+    model = common.driver(ctx.pid, reqs)
+    bad = [i for i in range(len(reqs)) if model[i] != exp[i]]
+    ctx.obligation("correspondence: Lean wrap / normProdW == numpy int16 / int32 / int64 "
+                   f"element-wise k*(k-1) ({sum(len(r.split(',')) for r in reqs)} products)",
+                   "correspondence", not bad,
+                   "\n".join(f"{reqs[i][:200]} :: model={model[i][:200]} numpy={exp[i][:200]}"
+                             for i in bad))
+
+
+def subclass_checks(ctx, quick):
+    """objects of the subclasses of InteractingNetworks (VisibilityGraph,
+    InterSystemRecurrenceNetwork) run through the same definitions on the sub-blocks of *their*
+    adjacency matrix, and the four ISRN wrappers cross_global_clustering_xy/yx,
+    cross_transitivity_xy/yx against the definitions on the x / y blocks"""
+    from pyunicorn.timeseries import VisibilityGraph, InterSystemRecurrenceNetwork
+    rng = ctx.rng
+
+    def as_case(net, tag):
+        n = int(net.N)
+        A = [[int(x) for x in r] for r in np.asarray(net.adjacency).tolist()]
+        c = Case()
+        c.n, c.directed, c.A, c.tag, c.wide = n, False, A, tag, False
+        c.w = [Fr(float(x)) for x in np.asarray(net.node_weights).tolist()]
+        la = [[Fr(0)] * n for _ in range(n)]
+        for a in range(n):
+            for b in range(a):
+                if A[a][b]:
+                    la[a][b] = la[b][a] = Fr(rng.randrange(1, 13), 4)
+        c.la = la
+        net.set_link_attribute("la", np.array([[float(x) for x in r] for r in la]))
+        c.Du = floyd(n, [[Fr(1) if A[a][b] else None for b in range(n)] for a in range(n)])
+        c.Dw = floyd(n, [[la[a][b] if A[a][b] else None for b in range(n)] for a in range(n)])
+        c.net = net
+        return c
+
+    def run_pairs(c, k):
+        for L1, L2 in partial_pairs(c.n, rng, k) + bipartitions(c.n, rng, 2):
+            t = impl_table(c.net, L1, L2, None)
+            names = list(t)
+            rng.shuffle(names)
+            res = {nm: call(t[nm]) for nm in names}
+            weighted = any(any(r) for r in c.A)
+            resw = None
+            if weighted:
+                tw = impl_table(c.net, L1, L2, "la")
+                resw = {nm: call(tw[nm]) for nm in PATH_MEASURES}
+            ctx.count("subclass:cases:" + c.tag)
+            ctx.case((c.tag, c.n, c.A, L1, L2), True)
+            oracle_case(ctx, c, L1, L2, res, resw)
+
+    for _ in range(2 if quick else 10):
+        n = rng.randrange(6, 13)
+        ts = np.array([rng.randrange(0, 9) / 2.0 for _ in range(n)])
+        with contextlib.redirect_stdout(io.StringIO()):
+            vg = VisibilityGraph(ts, horizontal=rng.random() < 0.4, silence_level=3)
+        run_pairs(as_case(vg, "VisibilityGraph"), 2)
+    for _ in range(3 if quick else 12):
+        nx, ny = rng.randrange(3, 8), rng.randrange(3, 8)
+        x = np.array([rng.randrange(0, 12) / 4.0 for _ in range(nx)])
+        y = np.array([rng.randrange(0, 12) / 4.0 for _ in range(ny)])
+        th = rng.choice([0.3, 0.6, 1.1])
+        try:
+            with contextlib.redirect_stdout(io.StringIO()):
+                isrn = InterSystemRecurrenceNetwork(x, y, threshold=(th, th, th), silence_level=3)
+        except Exception as e:  # noqa
+            ctx.count("subclass:isrn-constructor-raises:" + type(e).__name__)
+            continue
+        c = as_case(isrn, "InterSystemRecurrenceNetwork")
+        need_n = int(isrn.N_x) + int(isrn.N_y)
+        if c.n != need_n:
+            ctx.count("subclass:isrn-size-mismatch")
+            continue
+        run_pairs(c, 1)
+        o = Oracle(c.n, False, c.A, c.w, c.la, c.Du, c.Dw)
+        Lx, Ly = list(range(int(isrn.N_x))), list(range(int(isrn.N_x), c.n))
+        for nm, exp in (("cross_global_clustering_xy", o.cross_global_clustering(Lx, Ly)),
+                        ("cross_global_clustering_yx", o.cross_global_clustering(Ly, Lx)),
+                        ("cross_transitivity_xy", o.cross_transitivity(Lx, Ly)),
+                        ("cross_transitivity_yx", o.cross_transitivity(Ly, Lx))):
+            got = call(getattr(isrn, nm))
+            ctx.count("subclass:isrn-wrapper-calls")
+            if not same(got, shape_exact(exp)):
+                ctx.fail({"class": "InterSystemRecurrenceNetwork", "method": nm,
+                          "relation": "wrapper-vs-definition-on-layers"},
+                         f"InterSystemRecurrenceNetwork.{nm}() differs from the definition on the "
+                         f"x / y blocks of its adjacency (N_x={len(Lx)}, N_y={len(Ly)})",
+                         {"x": x.tolist(), "y": y.tolist(), "threshold": th, "adjacency": c.A,
+                          "method": nm, "expected": str(exp), "observed": str(got)})
 
 
 def hub_checks(ctx, quick):
@@ -924,21 +1087,132 @@ def hub_checks(ctx, quick):
            "cross_transitivity_sparse": tri.sum() / (k * (k - 1) / 2.0).sum(),
            "cross_link_density": B.sum() / float(n1 * n2)}
     ctx.case(("hubs", N, tuple(degs)), True)
-    for nm, e in exp.items():
+
+    def compare(net, nm, args, e, what, tol=1e-6):
         try:
-            got = np.asarray(getattr(net, nm)(L1, L2), dtype=float)
+            with warnings.catch_warnings(), np.errstate(all="ignore"):
+                warnings.simplefilter("ignore")
+                raw = getattr(net, nm)(*args) if args is not None else getattr(net, nm)
+            got = np.asarray(raw, dtype=float)
         except Exception as ex:  # noqa
             ctx.fail({"kind": "hub-raises", "method": nm, "error": type(ex).__name__},
                      f"{nm} raises {type(ex).__name__} on a network with cross degrees up to 240",
-                     {"N1": n1, "N2": n2, "cross_degrees": degs})
-            continue
+                     {"N1": n1, "N2": n2, "cross_degrees": degs, "variant": what})
+            return None
         ctx.count("hub:methods-compared")
-        if got.shape != np.asarray(e).shape or not np.allclose(got, e, rtol=1e-6, atol=1e-9):
+        if got.shape != np.asarray(e).shape or not np.allclose(got, e, rtol=tol, atol=1e-9):
             ctx.fail({"kind": "hub-definition", "method": nm},
-                     f"{nm} differs from its definition on the sub-blocks for cross degrees "
-                     f"{degs}: {np.round(got, 4).tolist()} vs {np.round(e, 4).tolist()}",
-                     {"N1": n1, "N2": n2, "cross_degrees": degs, "method": nm,
+                     f"{nm} ({what}) differs from its definition on the sub-blocks for cross "
+                     f"degrees {'> 255' if what == 'clique hub' else degs}: "
+                     f"{np.round(got, 4).tolist()[:12] if got.ndim else got} vs "
+                     f"{np.round(e, 4).tolist()[:12] if np.ndim(e) else e}",
+                     {"N1": n1, "N2": n2, "cross_degrees": degs, "method": nm, "variant": what,
                       "adjacency_rows_of_group_1": [np.nonzero(A[i])[0].tolist() for i in L1]})
+        return raw
+
+    for nm, e in exp.items():
+        compare(net, nm, (L1, L2), e, "lists")
+    # node lists handed over as small-integer arrays (node numbers < 2^15 fit int16)
+    a1, a2 = np.array(L1, dtype=np.int16), np.array(L2, dtype=np.int16)
+    for nm in ("cross_degree", "cross_local_clustering", "cross_global_clustering",
+               "cross_transitivity"):
+        compare(net, nm, (a1, a2), exp[nm], "int16 node arrays")
+    # integer results must come back in a type that holds k(k-1) for every possible degree
+    # (norm_int64_exact): the sums of the int8/int16 adjacency blocks accumulate in 64 bits
+    for nm, args in (("cross_degree", (L1, L2)), ("cross_indegree", (L1, L2)),
+                     ("cross_outdegree", (L1, L2)), ("internal_degree", (L2,)),
+                     ("internal_indegree", (L2,)), ("internal_outdegree", (L2,)),
+                     ("number_cross_links", (L1, L2)), ("number_internal_links", (L2,))):
+        r = getattr(net, nm)(*args)
+        dt = np.asarray(r).dtype
+        ctx.count("hub:result-dtypes-checked")
+        if not (dt.kind in "iu" and dt.itemsize >= 8):
+            ctx.fail({"kind": "hub-result-dtype", "method": nm, "dtype": str(dt)},
+                     f"{nm} returns {dt}: degrees / link counts narrower than 64 bits make "
+                     f"k*(k-1) wrap for large groups",
+                     {"method": nm, "dtype": str(dt)})
+    # internal measures of a group that contains the hubs and their neighbourhoods
+    Lint = L1 + rng.sample(L2, n2 // 2)
+    rng.shuffle(Lint)
+    Bi = A[np.ix_(Lint, Lint)].astype(np.int64)
+    compare(net, "internal_degree", (Lint,), Bi.sum(axis=1).astype(float), "hub group")
+    compare(net, "number_internal_links", (Lint,), float(Bi.sum() // 2), "hub group")
+    compare(net, "internal_link_density", (Lint,),
+            Bi.sum() / float(len(Lint) * (len(Lint) - 1)), "hub group")
+    # n.s.i. measures with dyadic weights against numpy evaluations of the double sums
+    w = np.array([rng.randrange(1, 9) / 4.0 for _ in range(N)])
+    netw = InteractingNetworks(adjacency=A, node_weights=w, silence_level=3)
+    Ap = (A.astype(np.int64) + np.eye(N, dtype=np.int64))
+    Bp, Ap2 = Ap[np.ix_(L1, L2)].astype(float), Ap[np.ix_(L2, L2)].astype(float)
+    w2, w1 = w[L2], w[L1]
+    kst = Bp @ w2
+    tri_nsi = np.array([(Bp[i] * w2) @ Ap2 @ (Bp[i] * w2) for i in range(n1)])
+    with np.errstate(divide="ignore", invalid="ignore"):
+        clc_nsi = np.where(kst != 0, tri_nsi / kst ** 2, 0.0)
+    nsi_exp = {"nsi_cross_degree": kst,
+               "nsi_cross_local_clustering": clc_nsi,
+               "nsi_cross_global_clustering": (w1 * clc_nsi).sum() / w1.sum(),
+               "nsi_cross_transitivity": (w1 * tri_nsi).sum() / (w1 * kst ** 2).sum(),
+               "nsi_cross_mean_degree": (w1 * kst).sum() / w1.sum(),
+               "nsi_cross_edge_density": (w1 * kst).sum() / w1.sum() / w2.sum()}
+    for nm, e in nsi_exp.items():
+        compare(netw, nm, (L1, L2), e, "n.s.i., weights k/4")
+    # both groups = all nodes of the hub network: the single-network methods
+    allv = list(range(N))
+    rng.shuffle(allv)
+    whole = [("cross_degree", (allv, allv), np.asarray(netw.degree())[allv].astype(float)),
+             ("internal_degree", (allv,), np.asarray(netw.degree())[allv].astype(float)),
+             ("number_internal_links", (allv,), float(netw.n_links)),
+             ("internal_link_density", (allv,), float(netw.link_density)),
+             ("cross_local_clustering", (allv, allv), np.asarray(netw.local_clustering())[allv]),
+             ("cross_transitivity", (allv, allv), float(netw.transitivity())),
+             ("nsi_cross_degree", (allv, allv), np.asarray(netw.nsi_degree())[allv]),
+             ("nsi_internal_local_clustering", (allv,),
+              np.asarray(netw.nsi_local_clustering())[allv]),
+             ("nsi_cross_transitivity", (allv, allv), float(netw.nsi_transitivity())),
+             ("nsi_cross_global_clustering", (allv, allv), float(netw.nsi_global_clustering()))]
+    for nm, args, e in whole:
+        compare(netw, nm, args, e, "both groups = all nodes (shuffled) vs single-network method")
+    # one node facing a nearly complete group of 262 nodes: more than 2^15 triangles / triples per
+    # node, so a counter narrower than the kernels' `long` (counters_are_long) would wrap
+    m2 = 262
+    Ac = np.ones((m2 + 2, m2 + 2), dtype=np.int8)
+    np.fill_diagonal(Ac, 0)
+    Ac[0, 1] = Ac[1, 0] = 0
+    for _ in range(200):
+        a, b = rng.sample(range(2, m2 + 2), 2)
+        Ac[a, b] = Ac[b, a] = 0
+    for j in rng.sample(range(2, m2 + 2), 3):
+        Ac[1, j] = Ac[j, 1] = 0
+    netc = InteractingNetworks(adjacency=Ac, silence_level=3)
+    C1, C2 = [0, 1], list(range(2, m2 + 2))
+    rng.shuffle(C2)
+    Bc = Ac[np.ix_(C1, C2)].astype(np.int64)
+    A2c = Ac[np.ix_(C2, C2)].astype(np.int64)
+    kc = Bc.sum(axis=1)
+    tric = np.array([(Bc[i][:, None] * Bc[i][None, :] * A2c).sum() // 2 for i in range(2)])
+    trpc = kc * (kc - 1) // 2
+    ctx.count("hub:clique-triangles-per-node>2^15", int((tric > 2 ** 15).sum()))
+    compare(netc, "cross_local_clustering", (C1, C2), tric / trpc.astype(float), "clique hub")
+    compare(netc, "cross_global_clustering", (C1, C2), (tric / trpc.astype(float)).mean(),
+            "clique hub")
+    compare(netc, "cross_transitivity", (C1, C2), tric.sum() / float(trpc.sum()), "clique hub")
+    # directed hubs: cross_degree = in + out reaches 2 * 240
+    Ad = A.copy()
+    for i in range(n1):
+        for j in rng.sample(L2, 30):
+            Ad[i, j], Ad[j, i] = 1, 0
+    netd = InteractingNetworks(adjacency=Ad, directed=True, silence_level=3)
+    Bo = Ad[np.ix_(L1, L2)].astype(np.int64)
+    Bi_ = Ad[np.ix_(L2, L1)].astype(np.int64)
+    compare(netd, "cross_outdegree", (L1, L2), Bo.sum(axis=1).astype(float), "directed hubs")
+    compare(netd, "cross_indegree", (L1, L2), Bi_.sum(axis=0).astype(float), "directed hubs")
+    compare(netd, "cross_degree", (L1, L2), (Bo.sum(axis=1) + Bi_.sum(axis=0)).astype(float),
+            "directed hubs")
+    compare(netd, "total_cross_degree", (L1, L2),
+            float((Bo.sum(axis=1) + Bi_.sum(axis=0)).mean()), "directed hubs")
+    compare(netd, "cross_degree_density", (L1, L2),
+            (Bo.sum(axis=1) + Bi_.sum(axis=0)) / float(n2), "directed hubs")
 
 
 def sig(method, relation, c, extra=None):
